@@ -96,6 +96,8 @@ Definition run_case (c : case) : bool :=
 COLS = ["a", "b", "c"]
 ATOMS = ["l.a = r.a", "l.b = r.b", "l.c = r.c", "substr(l.a,1,1) = substr(r.a,1,1)"]
 SCRATCH = "/var/tmp/c20"
+# completeness_data keeps its result table in the SQL-keyed cache (finding reported; set to False once fixed in /repo)
+COMPLETENESS_NEEDS_CLEANUP = True
 
 
 # ---------------------------------------------------------------------------- generation
@@ -152,9 +154,22 @@ def gen_case(rng, backend):
             if all(r[c] is None for r in raw[t]):
                 raw[t][0][c] = "x"
                 raw[t][-1][c] = "x"
-    return {"raw_tables": raw, "backend": backend, "link_type": lt, "names": names, "tables": tables, "comparisons": comps,
+    def gen_raw():
+        out = []
+        for t in range(nraw):
+            rows_t = [dict(rng.choice(pool)) for _ in range(rng.randint(2, 6))]
+            rows_t.append(dict(rows_t[0]))
+            out.append(rows_t)
+        for c in ("a", "b"):
+            for t in range(nraw):
+                if all(r[c] is None for r in out[t]):
+                    out[t][0][c] = "y"
+                    out[t][-1][c] = "y"
+        return out
+    # by-name sequence on one DatabaseAPI: the raw tables' contents are replaced by raw_tables2 and the calls repeated
+    return {"raw_tables": raw, "raw_tables2": gen_raw(), "hist_threshold": rng.choice([None, None, 0.5, 0.8]), "backend": backend, "link_type": lt, "names": names, "tables": tables, "comparisons": comps,
             "rules": rules, "prior": rng.choice([0.01, 0.1, 0.3, 0.5, 0.9]),
-            "num_bins": rng.choice([3, 5, 10, 30, 100]), "top_n": rng.choice([1, 2, 3, 10]), "bottom_n": rng.choice([1, 2, 10]),
+            "num_bins": rng.choice([3, 5, 10, 30, 60, 100, 150, 400, 2000]), "top_n": rng.choice([1, 2, 3, 10]), "bottom_n": rng.choice([1, 2, 10]),
             "completeness_cols": rng.choice([None, None, ["a"], ["b", "c"]])}
 
 
@@ -210,7 +225,13 @@ def run_impl(case):
         lk.visualisations.comparison_viewer_dashboard(dfp, f"{SCRATCH}/scv_{os.getpid()}.html", overwrite=True,
                                                       num_example_rows=1)
         res["cvd"] = store["__splink__df_comparison_vector_distribution"][-1]
-        res["hist"] = histogram_data(lk, dfp, case["num_bins"]).as_record_dict()
+        dfh = dfp
+        if case.get("hist_threshold") is not None:
+            ws = sorted(r["match_weight"] for r in res["predict"])
+            thr = ws[min(len(ws) - 1, int(case["hist_threshold"] * len(ws)))]
+            dfh = lk.inference.predict(threshold_match_weight=thr)      # a narrow weight range
+        res["hist_predict"] = dfh.as_record_dict()
+        res["hist"] = histogram_data(lk, dfh, case["num_bins"]).as_record_dict() if res["hist_predict"] else []
     # profile_columns returns a chart only: the tables it computes are read by wrapping the DatabaseAPI
     from splink.internals.profile_data import profile_columns
     papi = su.make_api(case["backend"])
@@ -226,16 +247,17 @@ def run_impl(case):
                     bottom_n=case.get("bottom_n", 10))
     res["profile"] = pcap
     if case.get("raw_tables"):
-        raw_frames = []
-        for rows_t in case["raw_tables"]:
-            d = pd.DataFrame(rows_t, columns=["a", "b"])
-            d["a"] = d["a"].astype("string")
-            d["b"] = d["b"].astype("string")
-            raw_frames.append(d)
-        raw_names = [f"raw{i}" for i in range(len(raw_frames))]
-        if case["backend"] == "duckdb":
-            api = su.make_api("duckdb")
-            res["raw_completeness"] = completeness_data(api.register_multiple_tables(raw_frames), api, None, raw_names)
+        def raw_frames_of(tabs):
+            out = []
+            for rows_t in tabs:
+                d = pd.DataFrame(rows_t, columns=["a", "b"])
+                d["a"] = d["a"].astype("string")
+                d["b"] = d["b"].astype("string")
+                out.append(d)
+            return out
+        raw_names = [f"raw{i}" for i in range(len(case["raw_tables"]))]
+        # tables registered BY NAME on one DatabaseAPI per function; contents replaced between the calls
+        capi = su.make_api("duckdb") if case["backend"] == "duckdb" else None
         papi = su.make_api(case["backend"])
         pcap2 = {}
         porig2 = papi.sql_pipeline_to_splink_dataframe
@@ -245,9 +267,27 @@ def run_impl(case):
             pcap2[sdf.templated_name] = sdf.as_record_dict()
             return sdf
         papi.sql_pipeline_to_splink_dataframe = pwrapped2
-        profile_columns(raw_frames, papi, column_expressions=["a", "b"], top_n=case.get("top_n", 10),
-                        bottom_n=case.get("bottom_n", 10))
-        res["raw_profile"] = pcap2
+        for step, key in enumerate(("raw_tables", "raw_tables2")):
+            if not case.get(key):
+                continue
+            for api in (capi, papi):
+                if api is not None:
+                    for nm, d in zip(raw_names, raw_frames_of(case[key])):
+                        api.register_table(d, nm, overwrite=step > 0)
+            tag = "raw" if step == 0 else "raw2"
+            if capi is not None:
+                # by name: ONE table (with >= 2 named tables completeness_data loses the dataset labels: finding,
+                # witness in c20.py); no cleanup call in between unless `completeness_cleanup` is set
+                if step > 0 and case.get("completeness_cleanup", COMPLETENESS_NEEDS_CLEANUP):
+                    capi.delete_tables_created_by_splink_from_db()
+                res[f"{tag}_named_completeness"] = completeness_data(capi.register_multiple_tables(raw_names[:1]), capi, None, raw_names[:1])
+                if step == 0:      # several tables as data frames (bags with duplicates)
+                    api0 = su.make_api("duckdb")
+                    res["raw_completeness"] = completeness_data(api0.register_multiple_tables(raw_frames_of(case[key])), api0, None, raw_names)
+            pcap2.clear()
+            profile_columns(raw_names, papi, column_expressions=["a", "b"], top_n=case.get("top_n", 10),
+                            bottom_n=case.get("bottom_n", 10))          # no cleanup call: it cleans up after itself
+            res[f"{tag}_profile"] = dict(pcap2)
     res["self_link"] = lk._self_link().as_record_dict()
     res["unlinkables"] = unlinkables_data(lk)
     return res
@@ -343,11 +383,15 @@ def build(case, res):
                     bad.append(("tf_scoring", f"pair scored with tf_{col}_{side}={t} for value {v!r}; tf table says {tfv.get(v)}"))
     # ---- completeness (linker-style tables, and raw tables with exact duplicate rows)
     raw_rows = [(f"raw{t}", r) for t, tab in enumerate(case.get("raw_tables") or []) for r in tab]
+    raw2_rows = [(f"raw{t}", r) for t, tab in enumerate(case.get("raw_tables2") or []) for r in tab]
     raw_names = [f"raw{t}" for t in range(len(case.get("raw_tables") or []))]
     main_rows, main_names = rows, case["names"]
     for view, rows, vnames, vres, vcols in (
             ("", main_rows, main_names, res.get("completeness"), case["completeness_cols"] or (["unique_id"] + COLS)),
-            ("raw ", raw_rows, raw_names, res.get("raw_completeness"), ["a", "b"])):
+            ("raw ", raw_rows, raw_names, res.get("raw_completeness"), ["a", "b"]),
+            ("named table ", [x for x in raw_rows if x[0] == "raw0"], raw_names[:1], res.get("raw_named_completeness"), ["a", "b"]),
+            ("after the named table was replaced: ", [x for x in raw2_rows if x[0] == "raw0"], raw_names[:1],
+             res.get("raw2_named_completeness"), ["a", "b"])):
         if vres is None:
             continue
         cols = vcols
@@ -371,7 +415,8 @@ def build(case, res):
                     bad.append(("completeness", f"{view}column {col} dataset {vnames[d]}: reported {row} but {nn} of {tot} cells are non-null"))
     rows = main_rows
     # ---- profile_columns (same two views)
-    for view, rows, prof, pcols in (("", main_rows, res.get("profile"), COLS), ("raw ", raw_rows, res.get("raw_profile"), ["a", "b"])):
+    for view, rows, prof, pcols in (("", main_rows, res.get("profile"), COLS), ("raw ", raw_rows, res.get("raw_profile"), ["a", "b"]),
+                                    ("after the named raw tables were replaced: ", raw2_rows, res.get("raw2_profile"), ["a", "b"])):
         if prof is None:
             continue
         need = ["__splink__df_all_column_value_frequencies", "__splink__df_percentiles", "__splink__df_top_n", "__splink__df_bottom_n"]
@@ -405,9 +450,9 @@ def build(case, res):
                              + f" {ntop}%nat {nbot}%nat {zz(itop)} {zz(ibot)})")
                 labels.append(("profile", view + col))
                 if dict(ivf) != fr or len(ivf) != len(fr):
-                    bad.append(("profile", f"column {col}: value counts {ivf} but the data has {sorted(fr.items())}"))
+                    bad.append(("profile", f"{view}column {col}: value counts {ivf} but the data has {sorted(fr.items())}"))
                 if tot != (len(nn), len(colv), len(fr)):
-                    bad.append(("profile", f"column {col}: totals {tot} but non-null/rows/distinct are {(len(nn), len(colv), len(fr))}"))
+                    bad.append(("profile", f"{view}column {col}: totals {tot} but non-null/rows/distinct are {(len(nn), len(colv), len(fr))}"))
                 for c, tok, pe, pi in ipc:
                     cum = sum(1 for v in nn if fr[v] >= c)
                     exact = sum(1 for v in nn if fr[v] == c)
@@ -446,8 +491,8 @@ def build(case, res):
         for x in res["cvd"]:
             if x["gam_concat"] != ",".join(str(int(x[g])) for g in gcols):
                 bad.append(("cvd", f"gam_concat {x['gam_concat']}"))
-        # histogram
-        scores = [Fraction(p["match_weight"]) for p in preds]
+        # histogram (possibly of thresholded predictions)
+        scores = [Fraction(p["match_weight"]) for p in res.get("hist_predict", preds)]
         mn, mx = min(scores), max(scores)
         bw_impl = {Fraction(str(x["binwidth"])) for x in res["hist"]}
         bw_spec, gap = bins_py(mn, mx, case["num_bins"])
@@ -503,3 +548,49 @@ def build(case, res):
             if abs(cum - share) > Fraction(1, 10**5) or abs(pr - own) > Fraction(1, 10**6):
                 bad.append(("unlinkables", f"probability {float(pw)}: cum_prop {float(cum)} prop {float(pr)} but the share of records at or below it is {float(share)} (at it: {float(own)})"))
     return terms, labels, bad, skipped
+
+
+# ---------------------------------------------------------------------------- witness: completeness on a replaced named table
+WITNESS_COMPLETENESS_STALE = {"table_name": "tt", "first": ["x", "x", "y", None], "second": ["x", "z", "z", "z", "z"]}
+
+
+def replay_witness_completeness_stale():
+    """completeness_data on a table passed by name, contents replaced, same DatabaseAPI, no cleanup
+    -> (reproduced, first, second, fresh) as (total_null_rows, total_rows_inc_nulls)"""
+    from splink.internals.completeness import completeness_data
+    w = WITNESS_COMPLETENESS_STALE
+
+    def frame(vals):
+        d = pd.DataFrame([{"a": v} for v in vals])
+        d["a"] = d["a"].astype("string")
+        return d
+
+    def run(api):
+        rows = completeness_data(api.register_multiple_tables([w["table_name"]]), api, ["a"], [w["table_name"]])
+        return [int(rows[0]["total_null_rows"]), int(rows[0]["total_rows_inc_nulls"])]
+    api = su.make_api("duckdb")
+    api.register_table(frame(w["first"]), w["table_name"])
+    first = run(api)
+    api.register_table(frame(w["second"]), w["table_name"], overwrite=True)
+    second = run(api)
+    fresh = su.make_api("duckdb")
+    fresh.register_table(frame(w["second"]), w["table_name"])
+    want = run(fresh)
+    return second != want, first, second, want
+
+
+WITNESS_COMPLETENESS_LABELS = {"tables": {"t1": ["x", None], "t2": ["y", "y", "y"]}}
+
+
+def replay_witness_completeness_labels():
+    """completeness_data on two tables passed by name -> (reproduced, labels)"""
+    from splink.internals.completeness import completeness_data
+    api = su.make_api("duckdb")
+    for nm, vals in WITNESS_COMPLETENESS_LABELS["tables"].items():
+        d = pd.DataFrame([{"a": v} for v in vals])
+        d["a"] = d["a"].astype("string")
+        api.register_table(d, nm)
+    names = list(WITNESS_COMPLETENESS_LABELS["tables"])
+    rows = completeness_data(api.register_multiple_tables(names), api, ["a"], names)
+    labels = sorted(str(r["source_dataset"]) for r in rows)
+    return labels != sorted(names), labels
